@@ -27,6 +27,13 @@ Proof.
   intros x l. rewrite <- Neqb_memb_spec. destruct (memb N.eqb x l); split; intro H; congruence.
 Qed.
 
+Lemma nodupb_sound : forall l, nodupb l = true -> NoDup l.
+Proof.
+  induction l as [|x l IH]; cbn; intro H; [constructor|].
+  apply andb_true_iff in H as [H1 H2]. constructor; [|apply IH, H2].
+  apply memb_false_not_In, negb_true_iff, H1.
+Qed.
+
 Lemma aget_Some_In {A} : forall (m : list (N * A)) k x, aget m k = Some x -> In (k, x) m.
 Proof.
   induction m as [|[k' y] m IH]; intros k x H; cbn in H; [discriminate|].
